@@ -629,7 +629,11 @@ func writeRec(path string, rec ViolationRec) {
 // swarmEnv records the environment dimensions the orchestrator varies per worker.
 func swarmEnv() map[string]string {
 	out := map[string]string{}
-	for _, k := range []string{"GOMAXPROCS", "LC_ALL", "LC_CTYPE", "LANG", "TZ", "VERIF_IDLE_GOROUTINES", "VERIF_REALDISK_ONLY"} {
+	keys := []string{"GOMAXPROCS", "LC_ALL", "LC_CTYPE", "LANG", "TZ", "VERIF_IDLE_GOROUTINES", "VERIF_REALDISK_ONLY"}
+	if v := os.Getenv("VERIF_SWARM_VARS"); v != "" {
+		keys = append(keys, strings.Split(v, ",")...)
+	}
+	for _, k := range keys {
 		if v, ok := os.LookupEnv(k); ok {
 			out[k] = v
 		}
